@@ -174,6 +174,35 @@ theorem cadence_generated (i : Int) (intn : Int → Int) (hi : 0 < 2 * i / 10)
 /-- non-vacuity of `cadence_generated`: a 5 s interval and the largest draw give 5.5 s less one tick -/
 example : Facts.gen_pollPeriod 5000000000 (fun n => n - 1) = 5499999999 := by decide
 
+/-- Which interval that is: `Facts.gen_pollInterval` is StoreConfig.pollInterval and
+`Facts.gen_startsPoller` the guard of NewStore's one `go s.run(ctx, pi, done)`, both translated
+from the source on every run.  For every configured positive `PollInterval` p (ns) and every
+rand.Intn: the interval NewStore works with is p itself, the poller is started with it, and
+(p of at least 5 ns, below which rand.Intn's argument is zero) the ticker period lies within a
+tenth of *the configured* interval on either side.  Nothing is claimed about what an unset or
+negative interval means (the default and "polling disabled" are not part of the statement). -/
+theorem configured_interval_generated (p : Int) (intn : Int → Int) (hp : 0 < p)
+    (hd : ∀ n, 0 < n → 0 ≤ intn n ∧ intn n < n) :
+    Facts.gen_pollInterval_ok = true ∧ Facts.gen_startsPoller_ok = true ∧
+    Facts.gen_pollInterval p = p ∧
+    Facts.gen_startsPoller (Facts.gen_pollInterval p) = true ∧
+    (5 ≤ p → p - p / 10 ≤ Facts.gen_pollPeriod (Facts.gen_pollInterval p) intn ∧
+      Facts.gen_pollPeriod (Facts.gen_pollInterval p) intn ≤ p + p / 10) := by
+  have hne : ¬ p = 0 := by omega
+  have hI : Facts.gen_pollInterval p = p := by
+    unfold Facts.gen_pollInterval; simp [hne]
+  refine ⟨by decide, by decide, hI, ?_, ?_⟩
+  · rw [hI]; unfold Facts.gen_startsPoller; simp; omega
+  · intro h
+    rw [hI]
+    have c := cadence_generated p intn (by omega) hd
+    exact ⟨c.1, c.2.1⟩
+
+/-- non-vacuity of `configured_interval_generated`: a 5 s interval, the smallest and the largest draw -/
+example : Facts.gen_pollPeriod (Facts.gen_pollInterval 5000000000) (fun _ => 0) = 4500000000 ∧
+    Facts.gen_pollPeriod (Facts.gen_pollInterval 5000000000) (fun n => n - 1) = 5499999999 ∧
+    Facts.gen_startsPoller (Facts.gen_pollInterval 5000000000) = true := by decide
+
 /-- non-vacuity of `cadence` and `poll_ok_fresh`'s hypotheses -/
 example : (7 : Nat) < 2 * 50 / 10 := by decide
 
